@@ -157,6 +157,11 @@ plain_text = _PLAIN
 def some_text(p_tricky=0.6):
     return st.one_of(_TRICKY, _TRICKY, _PLAIN) if p_tricky > 0.5 else st.one_of(_TRICKY, _PLAIN, _PLAIN)
 
+def value_text():
+    """string cells and nominal levels: as some_text() plus (1 in 8) the empty string, which Weka writes as '' - it is a value,
+    not the missing marker. Attribute names stay non-empty; the string '?' is never generated."""
+    return st.one_of(_TRICKY, _TRICKY, _TRICKY, _TRICKY, _PLAIN, _PLAIN, _PLAIN, st.just(""))
+
 def chance(draw, percent):
     return draw(st.integers(0, 99)) < percent
 
@@ -186,7 +191,7 @@ def tables(draw, layout="dense", max_rows=8, max_cols=6):
         t = draw(st.sampled_from(["numeric", "numeric", "string", "string", "nominal", "nominal", "integer", "real", "date"]))
         col = {"name": name, "type": t}
         if t == "nominal":
-            lv = draw(st.lists(some_text(), min_size=1, max_size=4, unique=True))
+            lv = draw(st.lists(value_text(), min_size=1, max_size=4, unique=True))
             if layout == "sparse":
                 lv = [l for l in lv if l != "0"] or ["a"]   # see ASSUMPTIONS: "0" is coba's documented extra level
             col["levels"] = lv
@@ -213,7 +218,7 @@ def tables(draw, layout="dense", max_rows=8, max_cols=6):
             elif t == "date":
                 row.append(draw(st.sampled_from(DATES)))
             else:
-                row.append(draw(some_text()))
+                row.append(draw(value_text()))
         rows.append(row)
     return {"relation": draw(some_text(0.3)), "cols": cols, "rows": rows}
 
